@@ -43,7 +43,7 @@ RULES = {
 }
 MIN = {"R15": 6, "R1": 1, "R2": 7, "R3": 2, "R4": 2, "R5": 3, "R6": 3, "R7": 3, "R8": 5, "R9": 1, "R10": 3, "R11": 1, "R12": 4, "R13": 1, "R14": 1}
 TRUSTED = ["distance matrix is symmetric (C07.R3)", "scipy logsumexp(axis=1) reduces the triple axis only", "numpy broadcasting"]
-TECHNIQUE = "polynomial normal form with permutation (S3) symmetry lint; def-use checks of the padding protocol; axis-role lint"
+TECHNIQUE = "polynomial normal form with permutation (S3) symmetry lint; def-use checks of the padding protocol; axis-role lint; freshness / borrowed-mutation abstract interpretation of the scoring module (no write into an input array)"
 LEVEL_TEXT = ("Invariance under relabelling of the posterior samples, independence from co-scored plates (axis isolation + "
               "padding protocol) and id/value alignment are properties of the kernel's algebraic form and data flow; they are "
               "decided for all inputs. The kernel's returned expression is also compared, as a polynomial normal form over role atoms, with "
